@@ -331,6 +331,25 @@ class C26(Property):
                 ctx.violation("intensity-sum-not-one-on-zone-axis", case, {"sums": s.tolist()})
         elif (s < (M ** 2).min() - tol).any() or (s > (M ** 2).max() + tol).any():
             ctx.violation("intensity-sum-outside-flux-bounds", case, {"sums": s.tolist(), "M2 range": [float((M ** 2).min()), float((M ** 2).max())]})
+        elif np.abs(s - 1).max() > tol and np.abs(w - 1).max() <= tol:
+            # recorded deviation from the statement: with g_z ≠ 0 reflections the flux-weighted sum is one (verified just above), the plain
+            # sum is not (it stays inside the proved [min M², max M²] bounds, verified above) — see plain_sum_not_conserved_counterexample
+            ctx.violation("plain-intensity-sum-differs-from-one-with-holz-or-tilt", case,
+                          {"plain sums": s.tolist(), "flux-weighted sums": w.tolist(), "max |M-1|": float(np.abs(M - 1).max())})
+        # reflection selection (filter_reciprocal_space_vectors), recomputed independently
+        from abtem.bloch.utils import get_reflection_condition
+        from abtem.core.energy import energy2wavelength
+
+        allh = np.asarray(bw.structure_factor.hkl)
+        gall = allh @ np.linalg.inv(np.asarray(bw.cell)).T
+        lam = energy2wavelength(bw.energy)
+        sg_all = (-2 * gall[:, 2] - lam * (gall ** 2).sum(-1)) / 2
+        want = (np.abs(sg_all) <= case["sg_max"]) & (np.linalg.norm(gall, axis=1) <= bw.g_max) & \
+            np.asarray(get_reflection_condition(allh, bw._centering))
+        edge = (np.abs(np.abs(sg_all) - case["sg_max"]) < 1e-9) | (np.abs(np.linalg.norm(gall, axis=1) - bw.g_max) < 1e-9)
+        got = np.asarray(bw.hkl_mask)
+        if ((want != got) & ~edge).any() or not got[(allh == 0).all(axis=1)].all():
+            ctx.violation("reflection-selection-differs-from-sg-gmax-centering-rule", case, {"selected": int(got.sum()), "expected": int(want.sum())})
         # lazy = eager
         try:
             L = np.asarray(bw.calculate_diffraction_patterns(ts, lazy=True).compute().array, dtype=float)
@@ -370,7 +389,7 @@ class C26(Property):
             self.oracle(ctx, case)
             ctx.case(case)
         rng = ctx.rng
-        for _ in range(ctx.n(2, 20)):
+        for _ in range(ctx.n(5, 30)):
             case = dict(check="ensemble", crystal=rng.choice(["Si", "Cu", "SrTiO3"]), g_max=1.0, sigma=0.08, energy=rng.choice([100e3, 200e3]),
                         sg_max=rng.choice([0.05, 0.1]), precision="float32", thicknesses=[0.0, rng.choice([40.0, 120.0])],
                         rx=[0.0] + [round(rng.uniform(-0.03, 0.03), 4) for _ in range(rng.randint(1, 2))],
